@@ -355,7 +355,7 @@ def run_workspaces(r, seeds, nq, fixed_docs=()):
 def run(r):
     quick = r.tier == "quick"
     proof_ok = runner.proof_stage(r)
-    nws = int(os.environ.get("VERIF_CASES", 10 if quick else 150))
+    nws = int(os.environ.get("VERIF_CASES", 24 if quick else 150))
     seeds = [r.seed * 1000 + 15 + i for i in range(nws)]
     corpus = sorted(glob.glob(os.path.join(core.VERIF, "gen", "corpus", PID, "*.json")))
     cdocs = [json.load(open(p))["docs"] for p in corpus]
